@@ -18,6 +18,20 @@ def _cfg_variants(rng, fmt):
         ]
     )
     v = dict(v, color_format=fmt, output_file="out.ttf")
+    r = rng.random()
+    if r < 0.3:
+        from picosvg.svg_transform import Affine2D
+
+        # user transforms that keep circles circular (OT-SVG rejects the others for radial
+        # gradients, which the property allows): translation, uniform scale, mirror
+        v["transform"] = rng.choice(
+            [
+                Affine2D(1, 0, 0, 1, 40, -25),
+                Affine2D(0.8, 0, 0, 0.8, 0, 0),
+                Affine2D(-1, 0, 0, 1, 1000, 0),
+                Affine2D(1, 0, 0, -1, 0, 700),
+            ]
+        )
     return v
 
 
@@ -73,7 +87,12 @@ def _picture_mismatches(glyphs, result, evaluator_factory, n=11, otsvg=False):
                     # rounding of gradient geometry to integers moves the colour line by up
                     # to ~(1 + t/2) font units: accept what the specification paints nearby
                     delta = (1.0 + 0.5 * e2e.gradient_t_at(g, p)) / s
-                    if delta < margin and e2e.within_envelope(g, p, got, delta):
+                    if otsvg:
+                        # OT-SVG output is rounded to 3 decimals; under a strongly non-uniform
+                        # reuse transform (gradientTransform entries ~0.09 x coordinates ~500)
+                        # that moves a gradient by up to ~0.3 viewBox units
+                        delta += 0.3
+                    if delta < margin + (0.3 if otsvg else 0) and e2e.within_envelope(g, p, got, delta):
                         continue
                 bad.append((gi, p, tuple(round(v, 3) for v in want), got if isinstance(got, str) else tuple(round(v, 3) for v in got)))
     return bad
